@@ -11,6 +11,7 @@ A Sub is either Hypothesis-driven (strategy -> JSON-serialisable case) or an enu
 (cases(tier) -> iterable of cases).  run_case(case) is a pure function of `case` and of the
 code under test and returns an Outcome.  Nothing here consults a wall clock for a verdict.
 """
+import faulthandler
 import hashlib
 import json
 import os
@@ -18,6 +19,7 @@ import sys
 import time
 import traceback
 
+CASE_WATCHDOG = int(os.environ.get('VERIF_CASE_WATCHDOG', '240'))
 VERIF = os.path.dirname(os.path.dirname(os.path.abspath(__file__)))
 REPO = os.path.abspath(os.environ.get('REPO', '/repo'))
 
@@ -138,6 +140,10 @@ class _Recorder:
     def observe(self, case, count=True):
         """Run one case. Returns list of unknown (sig,msg)."""
         res = self.res
+        # harness watchdog (never a verdict): a single case that needs more than CASE_WATCHDOG real seconds dumps all
+        # thread stacks and ends this shard; the parent then reports a harness error (exit 2)
+        faulthandler.cancel_dump_traceback_later()
+        faulthandler.dump_traceback_later(CASE_WATCHDOG, exit=True)
         try:
             out = self.sub.run_case(case)
         except CaseViolation:
